@@ -5,7 +5,7 @@ import sys
 
 sys.path.insert(0, os.path.dirname(os.path.abspath(__file__)))
 
-TREE = ("C01", "C02", "C03", "C07", "C08", "C16")
+TREE = ("C01", "C02", "C03", "C07", "C08", "C16", "C17")
 
 
 def main():
